@@ -48,6 +48,11 @@ type stressSpec struct {
 	Yield    bool `json:"yield"`    // interpreted code yields inside the recursion
 }
 
+// estimate is a rough count of the interpreted function entries of the scenario.
+func (s stressSpec) estimate() int {
+	return s.Waves * (s.Compiled + s.GoStmt + 1) * (1 + 2*s.Nest) * (3*s.Depth + 8)
+}
+
 func (s stressSpec) key() string {
 	return fmt.Sprintf("w%d c%d g%d d%d n%d p%d x%d v%d y%v", s.Waves, s.Compiled, s.GoStmt, s.Depth, s.Nest, s.Procs, s.Perturb, s.Variant, s.Yield)
 }
@@ -731,7 +736,7 @@ func runWorker(specs []stressSpec, tag string) ([]stressResult, error) {
 	done := make(chan error, 1)
 	go func() { done <- cmd.Wait() }()
 	// safety net only (never an oracle): a worker that hangs is an infrastructure failure
-	limit := time.Duration(240+20*len(specs)) * time.Second
+	limit := time.Duration(600+60*len(specs)) * time.Second
 	var werr error
 	timedOut := false
 	select {
@@ -839,30 +844,32 @@ func genSpec(t *rapid.T, thorough bool) stressSpec {
 		Yield:    rapid.Bool().Draw(t, "yield"),
 	}
 	if thorough {
-		s.Procs = rapid.SampledFrom([]int{1, 2, 3, 4, 8}).Draw(t, "procs-thorough")
-		s.Waves += rapid.IntRange(0, 5).Draw(t, "more-waves")
-		s.Compiled *= rapid.IntRange(1, 3).Draw(t, "compiled-x")
-		s.GoStmt *= rapid.IntRange(1, 3).Draw(t, "gostmt-x")
+		s.Procs = rapid.SampledFrom([]int{1, 2, 3, 4, 4, 8}).Draw(t, "procs-thorough")
+		s.Waves += rapid.IntRange(0, 4).Draw(t, "more-waves")
+		s.Compiled += rapid.IntRange(0, 24).Draw(t, "more-compiled")
+		s.GoStmt += rapid.IntRange(0, 24).Draw(t, "more-gostmt")
 	}
 	if s.Compiled+s.GoStmt == 0 {
 		s.GoStmt = 4
 	}
-	if s.Depth >= 13 {
-		// deep recursion (pool of 32 recycled frames exhausted and refilled) costs about a
-		// millisecond per function entry under the race detector: fewer goroutines
-		m := 7
-		if thorough {
-			m = 13
-		}
-		s.Compiled, s.GoStmt = s.Compiled%m, s.GoStmt%m
-		if s.Compiled+s.GoStmt == 0 {
-			s.Compiled, s.GoStmt = 2, 3
-		}
-		if s.Waves > 3 && !thorough {
-			s.Waves = 3
-		}
-		if s.Nest > 1 {
-			s.Nest = 1
+	// Bound the cost of a scenario: under the race detector an interpreted function
+	// entry costs up to a millisecond (much more when the machine is oversubscribed,
+	// because the registry lock spins). Deep recursions (pool of 32 recycled frames
+	// exhausted and refilled) therefore get fewer goroutines.
+	limit := 4000
+	if thorough {
+		limit = 8000
+	}
+	for s.estimate() > limit {
+		switch {
+		case s.Compiled+s.GoStmt > 3:
+			s.Compiled, s.GoStmt = s.Compiled/2, (s.GoStmt+1)/2
+		case s.Waves > 2:
+			s.Waves--
+		case s.Nest > 0:
+			s.Nest--
+		default:
+			s.Depth /= 2
 		}
 	}
 	return s
@@ -873,13 +880,13 @@ func TestStress(t *testing.T) {
 		return
 	}
 	var specs []stressSpec
-	rec.Check(t, rec.Scale(30, 60), func(t *rapid.T) {
+	rec.Check(t, rec.Scale(30, 50), func(t *rapid.T) {
 		specs = append(specs, genSpec(t, rec.Thorough()))
 	})
 	if t.Failed() {
 		return
 	}
-	const batch = 30
+	batch := rec.Scale(30, 25)
 	for b := 0; b < len(specs); b += batch {
 		e := b + batch
 		if e > len(specs) {
